@@ -52,10 +52,9 @@ theorem summaryOptsOk_iff (quantiles : List (V × V)) (maxAge : Int) (ageBuckets
     summaryOptsOk quantiles maxAge ageBuckets = true ↔
       (∀ q, q ∈ quantiles → NumOps.ge q.1 NumOps.zero = true ∧ NumOps.le q.1 NumOps.one = true) ∧
       0 ≤ maxAge ∧
-      (maxAge ≠ 0 → maxAge / (((if ageBuckets == 0 then 5 else ageBuckets : Nat)) : Int) ≠ 0) := by
+      minStreamDuration ≤ (if maxAge == 0 then 600000000000 else maxAge) / (((if ageBuckets == 0 then 5 else ageBuckets : Nat)) : Int) := by
   unfold summaryOptsOk
-  simp only [Bool.and_eq_true, List.all_eq_true, Bool.not_eq_true', decide_eq_false_iff_not, Int.not_lt,
-    Bool.and_eq_false_imp, bne_iff_ne, ne_eq, beq_eq_false_iff_ne]
+  simp only [Bool.and_eq_true, List.all_eq_true, Bool.not_eq_true', decide_eq_false_iff_not, Int.not_lt]
   exact ⟨fun ⟨⟨a, b⟩, c⟩ => ⟨a, b, c⟩, fun ⟨a, b, c⟩ => ⟨⟨a, b⟩, c⟩⟩
 
 /-- ranks in `[0, 1]` are safe objectives -/
@@ -91,17 +90,20 @@ theorem streamDuration_eq (maxAge : Int) (ageBuckets : Nat) :
 /-- options that passed `validateSummaryOptions`, with a `uint32` number of age buckets: `NewSummary` does not
     panic and `Observe` does not hang -/
 theorem maxAge_safe_of_ok {quantiles : List (V × V)} {maxAge : Int} {ageBuckets : Nat}
-    (h : summaryOptsOk quantiles maxAge ageBuckets = true) (hab : ageBuckets < uint32Bound) :
+    (h : summaryOptsOk quantiles maxAge ageBuckets = true) (_hab : ageBuckets < uint32Bound) :
     0 ≤ maxAge ∧ streamDuration maxAge ageBuckets ≠ 0 := by
   obtain ⟨_, h2, h3⟩ := (summaryOptsOk_iff _ _ _).mp h
   refine ⟨h2, ?_⟩
   rw [streamDuration_eq]
-  by_cases hz : maxAge = 0
-  · subst hz
-    exact default_window_ne_zero ageBuckets hab
-  · have : (maxAge == 0) = false := by simpa using hz
-    rw [this]
-    exact h3 hz
+  unfold minStreamDuration at h3
+  omega
+
+/-- … and more: the stream duration the client library steps its buffer expiry by is at least a millisecond -/
+theorem streamDuration_ge_of_ok {quantiles : List (V × V)} {maxAge : Int} {ageBuckets : Nat}
+    (h : summaryOptsOk quantiles maxAge ageBuckets = true) :
+    minStreamDuration ≤ streamDuration maxAge ageBuckets := by
+  rw [streamDuration_eq]
+  exact ((summaryOptsOk_iff _ _ _).mp h).2.2
 
 theorem summarySafe_of_ok (law : ObjectiveLaw V) {quantiles : List (V × V)} {maxAge : Int} {ageBuckets : Nat}
     (h : summaryOptsOk quantiles maxAge ageBuckets = true) (hab : ageBuckets < uint32Bound) :
